@@ -1133,6 +1133,29 @@ theorem step_inv {st : St} (hi : Inv st) (op : Op) : Inv (step st op).1 := by
     intro u hu huid
     have hrec := recInv_put_same (u := { u with secure := b }) hi.recs ⟨u, hu, rfl, rfl⟩
     exact setUser_inv hrec { u with secure := b } (hi.recs.names u hu)
+  | clearHosts id =>
+    simp only [step]
+    apply withUser_inv hi
+    intro u hu huid
+    have hrec := recInv_put_same (u := { u with hostmasks := [] }) hi.recs ⟨u, hu, rfl, rfl⟩
+    exact setUser_inv hrec { u with hostmasks := [] } (hi.recs.names u hu)
+  | setName id name =>
+    simp only [step]
+    apply withUser_inv hi
+    intro u hu huid
+    split
+    · exact hi
+    · rename_i hlb
+      have hn : hasLineBreak name = false := by simpa using hlb
+      refine setUser_inv ⟨putUser_nodup hi.recs.nodup, ?_, ?_⟩ { u with name := name } hn
+      · intro v hv
+        rcases mem_putUser' hi.recs.nodup hv with e | e
+        · rw [e]; exact hn
+        · exact hi.recs.names v e.1
+      · intro v hv
+        rcases mem_putUser' hi.recs.nodup hv with e | e
+        · rw [e]; exact hi.recs.ids u hu
+        · exact hi.recs.ids v e.1
   | load id name sec masks =>
     simp only [step]
     have h1 := setUser_inv' hi { id := id, name := name, secure := sec, hostmasks := masks.foldl masksAdd [] } false
@@ -1459,6 +1482,18 @@ theorem revOK_step {st : St} (h : RevOK st.hc) (op : Op) : RevOK (step st op).1.
     apply revOK_withUser h
     intro u
     dsimp only; (refine revOK_setUser ?_ _; exact h)
+  | clearHosts id =>
+    simp only [step]
+    apply revOK_withUser h
+    intro u
+    dsimp only; (refine revOK_setUser ?_ _; exact h)
+  | setName id name =>
+    simp only [step]
+    apply revOK_withUser h
+    intro u
+    split
+    · exact h
+    · dsimp only; (refine revOK_setUser ?_ _; exact h)
   | load id name sec masks =>
     simp only [step]
     have h1 := revOK_setUser h { id := id, name := name, secure := sec, hostmasks := masks.foldl masksAdd [] } false
